@@ -17,6 +17,8 @@ func checkC06(c *Ctx, r *Report) {
 	ruleTypeAsserts(c, r, "type-assert", reach)
 	ruleNilRule(c, r, "nil-rule")
 	ruleDivZero(c, r, "int-div", false)
+	ruleLocalIndex(c, r, "local-index", reach)
+	ruleIntDivGuard(c, r, "int-div-guard", reach, divDelegated)
 	ruleParserProgress(c, r, "parser-progress", spec)
 	ruleLexerProgress(c, r, "lexer-progress")
 	checkJumpArith(c, r, "forward-only")
